@@ -23,7 +23,40 @@ def digest(tr):
     return h.hexdigest()
 
 
+def construction_order(order, names):
+    from props.C11 import callback_sets, configs, float_hyperparameters, harness_env_policy
+    out = {}
+    for aname, (cls, kw) in configs().items():
+        if names and aname not in names:
+            continue
+        variants = [("default", dict(kw))] + [(f"{n}={v}", dict(kw, **{n: v})) for n, d, v in float_hyperparameters(cls) if n not in kw]
+        if order == "reverse":
+            variants = variants[::-1]
+        objs = []
+        for label, k2 in variants:            # all objects are built first (construction is where a hidden registry would be filled), then traced
+            try:
+                objs.append((label, cls(**k2)))
+            except Exception as ex:  # noqa: BLE001
+                objs.append((label, f"constructor raised {type(ex).__name__}"))
+        env, mkpol = harness_env_policy(aname)
+        cb = callback_sets()["none"]
+        d = {}
+        for label, algo in objs:
+            if isinstance(algo, str):
+                d[label] = algo
+                continue
+            pol = mkpol()
+            st = eqx.filter_eval_shape(lambda k: algo.reset(env, pol, key=k, callback=cb), jr.key(0))
+            with stubs.prng_stubs():
+                tr = trace(lambda st, k: algo.iteration(st, key=k, callback=cb), st, jr.key(0), argnames=["st", "key"])
+            d[label] = digest(tr)
+        out[aname] = d
+    print("C11ORDER " + json.dumps(out), flush=True)
+
+
 def main():
+    if len(sys.argv) > 2 and sys.argv[1] == "--construction-order":
+        return construction_order(sys.argv[2], sys.argv[3:])
     from props.C11 import callback_sets, setups
     out = {}
     names = sys.argv[1:]
